@@ -13,7 +13,7 @@ mcvars == <<vars, nscans, nnr>>
 C(k, a, b) == [k |-> k, a |-> a, b |-> b]
 R(ns, g, p, mk, c) == [ns |-> ns, global |-> g, private |-> p, mk |-> mk, cond |-> c]
 B(size, mk, ep) == [size |-> size, mk |-> mk, ep |-> ep]
-F(id, size, u8, pesec, blocks) == [id |-> id, size |-> size, u8 |-> u8, pesec |-> pesec, blocks |-> blocks]
+F(id, size, u8, pesec, blocks) == [id |-> id, size |-> size, u8 |-> u8, pesec |-> pesec, ext |-> 0, blocks |-> blocks]
 
 \* ---- rule sets
 RS_protocol ==   \* C11: global / private / global+private / plain rules over two namespaces, two imports
